@@ -57,6 +57,7 @@ type Exec struct {
 
 	usedExt       map[string]bool
 	usedContracts map[string]bool
+	iterBase      int // recorded calls before the current loop iteration (for itercalls)
 	inlined       map[string]bool
 	forceContract map[string]bool
 	notes         map[string]bool
@@ -472,7 +473,19 @@ func (x *Exec) step(st *State) {
 		fr.defers = append(fr.defers, deferred{call: &in.Call, args: args, fn: fv})
 		fr.ip++
 	case *ssa.Go:
-		x.unsupported(st, "go statement")
+		// the goroutine runs concurrently: its body is outside the sequential contract of this
+		// function. Arguments are evaluated here; the body is not executed (listed as an assumption).
+		for _, a := range in.Call.Args {
+			x.eval(st, fr, a)
+		}
+		name := "function value"
+		if f := in.Call.StaticCallee(); f != nil {
+			name = x.prog.funcKey(f)
+		} else if mc, ok := in.Call.Value.(*ssa.MakeClosure); ok {
+			name = x.prog.funcKey(mc.Fn.(*ssa.Function))
+		}
+		x.notes["ASSUMED: goroutine started by a go statement is not part of this function's contract (body not verified here): "+name] = true
+		fr.ip++
 	case *ssa.Send:
 		x.sendInstr(st, fr, in)
 	case ssa.Value:
